@@ -252,7 +252,10 @@ def _hook(res, seg, nmin):
         rgap = float(np.max(np.abs(np.asarray(rb) - np.asarray(res.model))))
     except Exception:  # noqa
         rgap = None
-    return {"key": res.model_key, "readback_gap": rgap, "coef_id": list(getattr(res, "_verif_coef_id", []) or []),
+    cid = list(getattr(res, "_verif_coef_id", []) or [])
+    run_key = {7: "hdd_tidd_cdd_smooth", 5: "hdd_tidd_cdd", 4: "c_hdd_tidd_smooth", 3: "c_hdd_tidd", 1: "tidd"}.get(len(cid))
+    # key = the model the optimiser was run on (what the recorded box belongs to); stored_key = after reduce_model
+    return {"key": run_key, "stored_key": res.model_key, "readback_gap": rgap, "coef_id": list(getattr(res, "_verif_coef_id", []) or []),
             "bnds": None if b is None else [[float(v) for v in row] for row in np.asarray(b)],
             "x_raw": None if getattr(res, "_verif_x_raw", None) is None else [float(v) for v in res._verif_x_raw],
             "T": [float(v) for v in seg["temperature"].values], "obs": [float(v) for v in seg["observed"].values],
